@@ -52,7 +52,7 @@ TReset ==
   /\ versions' = <<Ev.chain>> /\ nextTag' = Len(Ev.chain) + 1 /\ srcSteps' = 0 /\ nReorgs' = 0 /\ faults' = 0
   /\ Ev.chain = [j \in 1..Len(Ev.chain) |-> j]
   /\ local' = <<>>
-  /\ cancelled' = FALSE /\ nextFetch' = 0 /\ weff' = 1 /\ fq' = <<>> /\ vq' = <<>> /\ rv' = NoRv
+  /\ cancelled' = FALSE /\ nextFetch' = 0 /\ weff' = 1 /\ fq' = <<>> /\ vq' = <<>> /\ rv' = NoRv /\ sp' = NoSp
   /\ highest' = -1 /\ catchUp' = FALSE /\ poll' = IdlePoll /\ polls' = 0
   /\ curr' = NoReorg /\ revSince' = <<>> /\ seenVers' = {}
   /\ headsQ' = <<>> /\ reorgQ' = <<>> /\ flags' = {}
@@ -84,18 +84,19 @@ TRespLatest ==
 
 TStored ==
   /\ IsEvent("Stored")
-  /\ Len(vq) > 0 /\ vq[1].rid = Ev.rid /\ vq[1].blk = Ev.tag /\ vq[1].h = Ev.h
-  /\ StoreOK
+  /\ sp.on /\ sp.rid = Ev.rid /\ sp.tag = Ev.tag /\ sp.h = Ev.h
+  /\ StoreAck
   /\ headsQ' = Append(headsQ, Ev.tag)
   /\ reorgQ' = IF curr.on THEN Append(reorgQ, <<curr.s, curr.e>>) ELSE reorgQ
   /\ flags' = flags \cup (IF ReorgExact THEN {} ELSE {<<"ReorgExact", "store", "-">>})
 
 TReverted ==
   /\ IsEvent("Reverted")
-  /\ HeadTag(local) = Ev.tag /\ Len(local) - 1 = Ev.h
-  /\ (RevertUncond \/ RevertDo)
-  /\ flags' = flags \cup (IF SourceStillHas(Ev.tag) THEN {<<"RevertsJustified", rv.why, rv.st>>} ELSE {})
-                    \cup (IF Evidence(Ev.tag) THEN {} ELSE {<<"RevertsHaveEvidence", rv.why, rv.st>>})
+  /\ rv.on /\ rv.tag = Ev.tag /\ Len(local) = Ev.h
+  /\ RevertAck
+  /\ flags' = flags \cup (IF SourceStillHas(Ev.tag) THEN {<<"RevertsJustified", rv.why, rv.how>>}
+                          ELSE IF ~Evidence(Ev.tag) THEN {<<"RevertsHaveEvidence", rv.why, rv.how>>}
+                          ELSE {})
   /\ UNCHANGED <<headsQ, reorgQ>>
 
 TNewHead ==
@@ -109,12 +110,15 @@ TReorgMsg ==
   /\ \E k \in 1..Len(reorgQ) : reorgQ[k] = <<Ev.s, Ev.e>> /\ reorgQ' = SubSeq(reorgQ, k + 1, Len(reorgQ))
   /\ UNCHANGED <<vars, headsQ, flags>>
 
-\* the source was stable and honest for as long as the node kept changing anything: convergence
+\* End: the source was held stable and honest until the node went quiet (or a generous budget of
+\* answers ran out).  The chain in the database must be the one the stores and reverts built;
+\* not having converged is a violation of the property that no finite trace can "explain", so it is
+\* reported as a flag of the trace rather than as a rejection.
+EndFlags == flags \cup (IF local = Cur THEN {} ELSE {<<"Converges", "-", "-">>})
 TEnd ==
   /\ IsEvent("End")
   /\ local = Ev.final
-  /\ local = Cur
-  /\ PrintT(<<"ACCEPT", Ev.tr, flags>>)
+  /\ PrintT(<<"ACCEPT", Ev.tr, EndFlags>>)
   /\ UNCHANGED <<vars, headsQ, reorgQ, flags>>
 
 Silent == NodeInternal /\ UNCHANGED <<l, headsQ, reorgQ, flags>>
